@@ -537,6 +537,94 @@ func collectRows(fd *ast.FuncDecl) (out []string) {
 
 func sorted(ss ...string) []string { sort.Strings(ss); return ss }
 
+// subscriberCtorRows: newSubscriberImpl as a list of recognised actions
+//
+//	if subscriber, ok := destination.(Subscriber[T]); ok { return subscriber }     "reuse a destination that is a Subscriber"
+//	subscriber := &subscriberImpl[T]{ … }                                          "alloc <sorted field names>"
+//	if subscription, ok := destination.(Subscription); ok { subscription.Add(subscriber.Unsubscribe) }
+//	                                                                               "link the destination's subscription"
+//	return subscriber                                                              "return"
+//
+// anything else is printed as "unknown: …", which no expected list contains.
+func subscriberCtorRows(fd *ast.FuncDecl) []string {
+	if fd == nil || fd.Body == nil {
+		return []string{"unknown: newSubscriberImpl not found"}
+	}
+	assertOf := func(st *ast.IfStmt) (string, string) { // (bound ident, asserted type name)
+		as, ok := st.Init.(*ast.AssignStmt)
+		if !ok || len(as.Lhs) != 2 || len(as.Rhs) != 1 {
+			return "", ""
+		}
+		ta, ok := as.Rhs[0].(*ast.TypeAssertExpr)
+		if !ok {
+			return "", ""
+		}
+		if x, ok := ta.X.(*ast.Ident); !ok || x.Name != "destination" {
+			return "", ""
+		}
+		name := ""
+		switch t := ta.Type.(type) {
+		case *ast.Ident:
+			name = t.Name
+		case *ast.IndexExpr:
+			if id, ok := t.X.(*ast.Ident); ok {
+				name = id.Name
+			}
+		}
+		id, _ := as.Lhs[0].(*ast.Ident)
+		if id == nil {
+			return "", ""
+		}
+		return id.Name, name
+	}
+	var out []string
+	for _, st := range fd.Body.List {
+		switch v := st.(type) {
+		case *ast.IfStmt:
+			id, typ := assertOf(v)
+			switch {
+			case typ == "Subscriber" && v.Else == nil && len(v.Body.List) == 1:
+				if r, ok := v.Body.List[0].(*ast.ReturnStmt); ok && len(r.Results) == 1 {
+					if x, ok := r.Results[0].(*ast.Ident); ok && x.Name == id {
+						out = append(out, "reuse a destination that is a Subscriber")
+						continue
+					}
+				}
+				out = append(out, "unknown: "+ksrcLine(st))
+			case typ == "Subscription" && v.Else == nil && len(v.Body.List) == 1 && ksrcLine(v.Body.List[0]) == id+".Add(subscriber.Unsubscribe)":
+				out = append(out, "link the destination's subscription")
+			default:
+				out = append(out, "unknown: "+ksrcLine(st))
+			}
+		case *ast.AssignStmt:
+			ok := false
+			if len(v.Lhs) == 1 && len(v.Rhs) == 1 {
+				if u, isU := v.Rhs[0].(*ast.UnaryExpr); isU {
+					if cl, isC := u.X.(*ast.CompositeLit); isC && strings.HasPrefix(ksrcLine(cl.Type), "subscriberImpl") {
+						var names []string
+						for _, e := range cl.Elts {
+							if kv, isKV := e.(*ast.KeyValueExpr); isKV {
+								names = append(names, ksrcLine(kv.Key))
+							}
+						}
+						sort.Strings(names)
+						out = append(out, "alloc "+strings.Join(names, " "))
+						ok = true
+					}
+				}
+			}
+			if !ok {
+				out = append(out, "unknown: "+ksrcLine(st))
+			}
+		case *ast.ReturnStmt:
+			out = append(out, "return")
+		default:
+			out = append(out, "unknown: "+ksrcLine(st))
+		}
+	}
+	return out
+}
+
 // ---------------------------------------------------------------- output
 
 func emitKernel(repo, outDir string) {
@@ -574,6 +662,15 @@ func emitKernel(repo, outDir string) {
 	for _, w := range collectRows(k.funcs["CollectWithContext"]) {
 		cs = append(cs, leanStr(w))
 	}
-	fmt.Fprintf(&sb, "def collectWrapper : List String := [%s]\n\nend RoGen.Kernel\n", strings.Join(cs, ", "))
+	fmt.Fprintf(&sb, "def collectWrapper : List String := [%s]\n\n", strings.Join(cs, ", "))
+	sb.WriteString("/-- subscriber.go newSubscriberImpl: the sequence of recognised actions (a destination that already is a Subscriber is returned as it is) -/\n")
+	var ns []string
+	for _, w := range subscriberCtorRows(k.funcs["newSubscriberImpl"]) {
+		ns = append(ns, leanStr(w))
+	}
+	fmt.Fprintf(&sb, "def subscriberCtor : List String := [%s]\n\nend RoGen.Kernel\n", strings.Join(ns, ", "))
 	writeIfChanged(filepath.Join(outDir, "Kernel.lean"), sb.String())
 }
+
+// ksrcLine: the source text of a node on one line, whitespace collapsed
+func ksrcLine(n ast.Node) string { return strings.Join(strings.Fields(ksrc(n)), " ") }
